@@ -103,6 +103,13 @@ def make_inputs(desc, ds):
     U = gen.unique_data(shape, start=1)
     V = gen.unique_data(shape, start=100001)
     mode = desc["mode"]
+    if desc["shuffle_seed"] % 7 == 5:
+        # some cells hold no value (land points): a missing value is copied into the halo like any other
+        import random
+
+        nr = random.Random(desc["shuffle_seed"])
+        for A in (U, V):
+            A[np.array([nr.random() < 0.25 for _ in range(A.size)]).reshape(A.shape)] = np.nan
     if mode == "scalar":
         # a scalar may live on any of the four position pairs (tracer, u-, v- or vorticity points)
         dY, dX = [("y", "x"), ("y", "xs"), ("ys", "x"), ("ys", "xs")][desc["shuffle_seed"] % 4 if desc["shuffle_seed"] % 3 == 0 else 0]
@@ -245,7 +252,7 @@ def run_case(ctx, desc):
                     kinds.add(kind)
                     if kind[0] != "open":
                         ncmp += 1
-                if bad is None and not np.array_equal(P[..., f, jj, ii], exp):
+                if bad is None and not np.array_equal(P[..., f, jj, ii], exp, equal_nan=True):
                     bad = (f, j, i, P[..., f, jj, ii].ravel()[0], np.ravel(exp)[0], kind)
     lk = sorted(k for k in kinds if k[0] != "open")
     ckey = (desc["mode"], lk, sorted({k for k in kinds if k[0] == "open"}), [tuple(v) for _, v in sorted(bw.items())], N > 2)
